@@ -32,7 +32,7 @@ BUDGET_S = {'quick': 240, 'thorough': 900}
 def bounds(tier):
     if tier == 'quick':
         return {'constants': 4, 'equations': '<= 2 exhaustive (2485 sets), 3: 7200 seeded sets (N=4) + 960 (N=5), chains: 256 seeded sets of 5 equations over 6 constants (0-2 f-equations); deep: 192 seeded sets of 9 equations over 10 constants (7 plain + 2 f-equations, 60% of the form f(x,x) = z), 12 seeded orders each', 'orders': 'all', 'hol_sets': 960}
-    return {'constants': [4, 5], 'equations': 'N=4: <= 3 exhaustive; N=4: 4 and N=5: 3, 20000 seeded sets each; chains: 4800 sets of 5 equations over 6 constants, 800 sets of 6 over 7; deep: 6400 sets of 9 equations over 10 constants and 1600 of 11 over 12, 12 seeded orders each', 'orders': 'all', 'hol_sets': 6000}
+    return {'constants': [4, 5], 'equations': 'N=4: <= 3 exhaustive; N=4: 4 and N=5: 3, 20000 seeded sets each; chains: 4800 sets of 5 equations over 6 constants, 800 sets of 6 over 7; deep: 1280 sets of 9 equations over 10 constants and 240 of 11 over 12, 12 seeded orders each', 'orders': 'all', 'hol_sets': 6000}
 
 
 def universe(N):
@@ -72,9 +72,9 @@ def units(tier, seed):
         for i in range(80):
             us.append(('core', 6, 5, 'chain', (seed, i), 60))
             us.append(('core', 7, 6, 'chain', (seed, i), 10))
-        for i in range(160):
-            us.append(('core', 10, 9, 'deep', (seed, i), 40))
-            us.append(('core', 12, 11, 'deep', (seed, i), 10))
+        for i in range(80):
+            us.append(('core', 10, 9, 'deep', (seed, i), 16))
+            us.append(('core', 12, 11, 'deep', (seed, i), 3))
         for i in range(60):
             us.append(('hol', seed, i, 100))
     random.Random(seed).shuffle(us)
